@@ -295,7 +295,7 @@ def count_obligations(files: list[Path]) -> tuple[int, int]:
 
 
 def eval_cases(corr_module: str, case_terms: list[str], workdir: Path,
-               check_fn="check_case", shard=400, jobs=16, extra_imports=()) -> tuple[set[int], str | None]:
+               check_fn="check_case", shard=400, jobs=8, extra_imports=()) -> tuple[set[int], str | None]:
     """Evaluate `check_fn case` in Coq for every case; return indices where it is false.
 
     Returns (bad_indices, error_log_or_None)."""
